@@ -129,7 +129,7 @@ def classify_function(ctx: Ctx, rep: Report, fn: FuncInfo, tabs):
             if last in VALUEERROR_ONLY or name in VALUEERROR_ONLY:
                 continue
             if name in ("unpack", "struct.unpack"):
-                ok = _unpack_guarded(fn, n)
+                ok = _unpack_guarded(fn, n, prog)
                 rep.check(ok, "C11.R1", "unpack:%s" % fn.short, where, "struct.unpack is guarded by the matching length test",
                           bad="%s: struct.unpack on data that may be short raises struct.error" % fn.short)
                 continue
@@ -148,7 +148,9 @@ def classify_function(ctx: Ctx, rep: Report, fn: FuncInfo, tabs):
         pop_loops(ctx, rep, fn)
 
 
-def _unpack_guarded(fn: FuncInfo, call: ast.Call) -> bool:
+def _unpack_guarded(fn: FuncInfo, call: ast.Call, prog=None) -> bool:
+    """On every path that reaches struct.unpack(fmt, data) the facts entail len(data) == calcsize(fmt)
+    (whichever way the length test and the branches are written)."""
     if len(call.args) != 2 or not isinstance(call.args[0], ast.Constant):
         return False
     import struct as _struct
@@ -156,14 +158,23 @@ def _unpack_guarded(fn: FuncInfo, call: ast.Call) -> bool:
         size = _struct.calcsize(call.args[0].value)
     except Exception:
         return False
-    data = norm(call.args[1])
-    for n in ast.walk(fn.node):
-        if isinstance(n, ast.If) and any(call is x for b in n.body for x in ast.walk(b)):
-            t = n.test
-            if isinstance(t, ast.Compare) and len(t.ops) == 1 and isinstance(t.ops[0], ast.Eq) and norm(t.left) == "len(%s)" % data \
-                    and isinstance(t.comparators[0], ast.Constant) and t.comparators[0].value == size:
-                return True
-    return False
+    if prog is None:
+        return False
+    from ..paths import enumerate_paths, no_raise
+    from ..replay import Replay
+    from ..symx import Lin, entails_eq
+    n = 0
+    for p in enumerate_paths(prog, fn, no_raise):
+        idx = [i for i, ev in enumerate(p.events) if ev.kind == "call" and ev.node is call]
+        if not idx:
+            continue
+        n += 1
+        rp = Replay(prog, fn, p)
+        sym = rp.sym_at(idx[0])
+        ln = Lin.of_term(("len", sym.term(call.args[1])))
+        if not entails_eq(rp.facts_before(idx[0]), ln - Lin.of_const(size)):
+            return False
+    return n > 0
 
 
 def _mentions_float_read(fn: FuncInfo, e: ast.expr) -> bool:
